@@ -89,7 +89,10 @@ class C01(Spec):
 
     def units(self, tier):
         sh = (lambda g, s: 8 if 'SGal3' in g else (4 if g in ('SE_2_3', 'SE3') else 1)) if tier == 'thorough' else (lambda g, s: 2 if 'SGal3' in g else 1)
-        return lattice_units('checks/c01.cpp', shards=sh)
+        us = lattice_units('checks/c01.cpp', shards=sh, defs=['VF_FN_ALL=1'])
+        for u in us:
+            u.bisect = [('all_but_transform', ['VF_FN=1']), ('transform', ['VF_FN=2'])]
+        return us
 
 
 class C03(Spec):
@@ -188,7 +191,30 @@ class C07(Spec):
         return lattice_units('checks/c07.cpp', shards=sh)
 
 
-_SPECS = {'C01': C01, 'C02': C02, 'C03': C03, 'C04': C04, 'C05': C05, 'C06': C06, 'C07': C07}
+class C08(Spec):
+    engine = 'E3-bfs'
+    design_ref = 'DESIGN.md 4/C08'
+    technique = 'explicit-state breadth-first exploration of all operation sequences up to a depth plus all periodic histories up to a period, on the real code, states hashed on coefficient bits'
+    level_text = ('all sequences over a ~40-operation alphabet (compose both sides, *=, between, +, +=, t+X, inverse, log-exp, squaring, cast, Random, setIdentity, 11 interpolations, 4 averages) up to depth 2 (quick) / 3 (thorough) '
+                  'from 6 start elements incl. both edges of the norm acceptance band, and all periodic histories with period 1 (x 2e4 / 2e6 steps), 2 (x 400 / 2e4) and 3 (thorough), in the assertion-enabled and the NDEBUG build; '
+                  'invariant in every state: finite coefficients, unit rotation part within the library threshold, no exception, deviation not growing with length')
+    level_note = 'bounded: history length, period and depth as stated; "arbitrarily long" is argued from the non-growth of the deviation over the last decades, not proved'
+    rule = ('states = distinct coefficient bit patterns reached; transitions = operation applications; a state is non-trivial when its rotation norm differs from 1 in the last bits (renormalisation matters); '
+            'cells are histories (op-name sequences from a named start) and periodic words')
+    explanation = 'explicit-state exploration of operation histories on the real code; oracle = validity invariant evaluated in extended precision in every state'
+    assumptions = ['linear coordinates are kept inside |x|<=1e6: a history leaving that box is stopped and counted (overflow by repeated doubling is arithmetic, not a library defect)',
+                   'Random() is exercised through std::rand with a fixed seed']
+
+    def units(self, tier):
+        us = []
+        for b in ('assert', 'ndebug'):
+            for u in lattice_units('checks/c08.cpp', builds=(b,), defs=['VF_FN_ALL=1'], shards=(lambda g, s: 8 if tier == 'thorough' else 4)):
+                u.bisect = [('without_frechet_and_weighted_average', ['VF_FN=1']), ('frechet', ['VF_FN=2']), ('weighted_average', ['VF_FN=3'])]
+                us.append(u)
+        return us
+
+
+_SPECS = {'C08': C08, 'C01': C01, 'C02': C02, 'C03': C03, 'C04': C04, 'C05': C05, 'C06': C06, 'C07': C07}
 
 
 def get(prop):
